@@ -26,7 +26,11 @@ pub enum Op {
     FinishMsg(u8),
     DropBar(u8),
     BarPrintln(u8),
+    /// println("") on a member bar: an empty log line
+    BarPrintlnEmpty(u8),
     MpPrintln,
+    /// one println of three lines
+    MpPrintln3,
     MpClear,
     MpSuspend,
     MpSuspendEmpty,
@@ -101,6 +105,8 @@ pub struct Cfg {
     pub same_log_text: bool,
     /// focus: keep only these operations in the alphabet (small alphabets reach deep histories)
     pub only: Option<fn(&Op) -> bool>,
+    /// println of an empty string / of three lines in the alphabet
+    pub odd_logs: bool,
 }
 
 impl Cfg {
@@ -129,6 +135,7 @@ impl Cfg {
             height_clauses: false,
             same_log_text: false,
             only: None,
+            odd_logs: false,
         }
     }
 
@@ -287,6 +294,9 @@ impl Hist for Cfg {
             v.push(Op::DropBar(x));
             if self.bar_println {
                 v.push(Op::BarPrintln(x));
+                if self.odd_logs && x == live[0] && !removed[x as usize] {
+                    v.push(Op::BarPrintlnEmpty(x));
+                }
             }
             if self.suspend && x == live[0] && !removed[x as usize] {
                 v.push(Op::BarSuspend(x));
@@ -299,6 +309,9 @@ impl Hist for Cfg {
             }
         }
         v.push(Op::MpPrintln);
+        if self.odd_logs {
+            v.push(Op::MpPrintln3);
+        }
         if self.clear {
             v.push(Op::MpClear);
         }
@@ -470,8 +483,13 @@ impl Cfg {
                 wd.bars[*x as usize] = None;
             }
             Op::BarPrintln(x) => bar(x).println(self.log_text(rf.logs.len(), "P")),
+            Op::BarPrintlnEmpty(x) => bar(x).println(""),
             Op::MpPrintln => {
                 let _ = wd.mp.println(self.log_text(rf.logs.len(), "L"));
+            }
+            Op::MpPrintln3 => {
+                let n = rf.logs.len();
+                let _ = wd.mp.println(format!("{}\n{}\n{}", self.log_text(n, "L"), self.log_text(n + 1, "L"), self.log_text(n + 2, "L")));
             }
             Op::MpClear => {
                 let _ = wd.mp.clear();
@@ -613,9 +631,25 @@ impl Cfg {
                     vanishers(rf);
                 }
             }
+            Op::BarPrintlnEmpty(x) => {
+                if !rf.bars[*x as usize].removed {
+                    rf.logs.push(String::new());
+                    rerender(&mut rf.bars[*x as usize]);
+                    must_paint = true;
+                    vanishers(rf);
+                }
+            }
             Op::MpPrintln => {
                 let t = self.log_text(rf.logs.len(), "L");
                 rf.logs.push(t);
+                must_paint = true;
+                vanishers(rf);
+            }
+            Op::MpPrintln3 => {
+                for _ in 0..3 {
+                    let t = self.log_text(rf.logs.len(), "L");
+                    rf.logs.push(t);
+                }
                 must_paint = true;
                 vanishers(rf);
             }
@@ -695,7 +729,9 @@ impl Cfg {
         let mut r = 0usize;
         let mut next_log = 0usize;
         while r < doc.len() {
-            if doc[r].is_empty() {
+            // an empty printed line is the first blank row after the previous log
+            let empty_log_next = next_log < log_rows.len() && log_rows[next_log].iter().all(|l| l.is_empty());
+            if doc[r].is_empty() && !empty_log_next {
                 items.push((Item::Blank, r));
                 r += 1;
                 continue;
@@ -735,6 +771,10 @@ impl Cfg {
             // the height clauses tolerate a truncated frame only through the prefix rule, so
             // anything else is residue
             return Err(("residue: a row matches no printed line and no member's last drawn rendering".into(), format!("row {r} {:?}", row)));
+        }
+        // the document ends at the last non-blank row: empty printed lines at its very end are not observable
+        while next_log < log_rows.len() && log_rows[next_log].iter().all(|l| l.is_empty()) {
+            next_log += 1;
         }
         if next_log < log_rows.len() {
             return Err(("log: a printed line is missing (erased or overwritten)".into(), format!("log #{next_log} {:?} not found in order", rf.logs[next_log])));
